@@ -10,7 +10,9 @@ static uint runner(void*)
 {
   for(int i = 0; i < g_runsWanted; ++i)
   {
+    long long t0 = vf_now_ns();
     g_server->run();
+    if(vf_now_ns() - t0 >= 1000000000LL) vf_failf("C14:interrupt-ignored", "run() needed %lld ms of virtual time to return: the interrupt did not wake it, a timeout did", (vf_now_ns() - t0) / 1000000);
     if(g_runsReturned + 1 > g_interruptsStarted) vf_failf("C14:run-returned", "run() returned %d time(s) although interrupt() was called %d time(s)", g_runsReturned + 1, (int)g_interruptsStarted);
     g_runsReturned = g_runsReturned + 1;
   }
@@ -61,7 +63,7 @@ struct EstCb : public Server::Establisher::ICallback
     if(removed) vf_fail("C14:establisher-after-remove", "onAbolished after remove() of the establisher had returned");
     abolished = abolished + 1;
     if(abolished > 1) vf_fail("C14:establisher-twice", "onAbolished delivered twice");
-    server->interrupt();
+    if(server) server->interrupt();
   }
 };
 struct StopTimer : public Server::Timer::ICallback { Server* server; virtual void onActivated() { server->interrupt(); } };
@@ -87,8 +89,29 @@ static void resolverScen(int variant)
       server.run();
       break;
     }
-    default: // destroyed while the resolver may still be running
+    case 2: // destroyed while the resolver may still be running
       break;
+    case 3: // interrupt() before run(): the wake-up that reports the finished resolver may carry the interrupt as well (one event
+            // descriptor serves both); run() has to return whichever comes first
+    {
+      cb.server = 0;
+      server.interrupt();
+      long long t0 = vf_now_ns();
+      server.run();
+      if(vf_now_ns() - t0 >= 1000000000LL) vf_failf("C14:interrupt-ignored", "run() returned %lld ms after a pending interrupt(): only a timeout ended it", (vf_now_ns() - t0) / 1000000);
+      break;
+    }
+    default: // interrupt() from another thread while the resolver reports back
+    {
+      cb.server = 0;
+      g_server = &server; g_runsReturned = 0; g_interruptsStarted = 0;
+      Thread t; t.start(interrupter, (void*)1L);
+      long long t0 = vf_now_ns();
+      server.run();
+      if(vf_now_ns() - t0 >= 1000000000LL) vf_failf("C14:interrupt-ignored", "run() returned %lld ms after it was started although interrupt() was called: only a timeout ended it", (vf_now_ns() - t0) / 1000000);
+      t.join();
+      break;
+    }
     }
   }
   vf_mark_library_threads_daemon();   // the global pool keeps its idle workers
@@ -96,5 +119,5 @@ static void resolverScen(int variant)
 }
 extern "C" int vf_scenario_count(void) { return 2; }
 extern "C" const char* vf_scenario_name(int id) { return id == 0 ? "interrupt" : "resolver"; }
-extern "C" int vf_scenario_variants(int id) { return id == 0 ? 4 : 3; }
+extern "C" int vf_scenario_variants(int id) { return id == 0 ? 4 : 5; }
 extern "C" void vf_scenario_run(int id, int variant) { if(id == 0) scen(variant); else resolverScen(variant); }
